@@ -167,14 +167,21 @@ def main():
           else:
             want = base(tf.constant(x))
         else:
-          ql = qkeras.QGlobalAveragePooling2D(average_quantizer=avq, activation=aq)
+          # the layer's own data format, in rotation (the process-wide Keras default stays channels_last): with channels_first the
+          # tensor is (batch, C, H, W) and C differs from W, so spatial axes taken from the wrong format give another area
+          cf = (rot // 3) % 2 == 1
+          dfmt = "channels_first" if cf else None
+          if cf:
+            x = np.ascontiguousarray(np.transpose(x, (0, 3, 1, 2)))
+          ql = qkeras.QGlobalAveragePooling2D(average_quantizer=avq, activation=aq, data_format=dfmt)
           y = ql(tf.constant(x)).numpy()
           area = hh * ww
-          desc.update(hw=(hh, ww))
+          desc.update(hw=(hh, ww), data_format=dfmt)
+          sp = [2, 3] if cf else [1, 2]
           if avq:
-            want = tf.reduce_sum(tf.constant(x), axis=[1, 2]) * tf.cast(get_quantizer(avq)(1.0 / area), tf.float32)
+            want = tf.reduce_sum(tf.constant(x), axis=sp) * tf.cast(get_quantizer(avq)(1.0 / area), tf.float32)
           else:
-            want = L.GlobalAveragePooling2D()(tf.constant(x))
+            want = L.GlobalAveragePooling2D(data_format=dfmt)(tf.constant(x))
         if aq:
           want = get_quantizer(aq)(want)
         rep.count(tuple(sorted((k, str(v)) for k, v in desc.items())))
